@@ -182,6 +182,14 @@ public:
    }
 
    /// set whether the LP is scaled or not
+   SPxScaler<R>* lpScaler() const
+   {
+      return lp_scaler;
+   }
+   void setLpScaler(SPxScaler<R>* s)
+   {
+      lp_scaler = s;
+   }
    void setScalingInfo(bool scaled)
    {
       _isScaled = scaled;
